@@ -393,6 +393,9 @@ func CheckC17(tier string) int {
 		if sc.N > 5 {
 			maxBlocks = 4 // large sets: in-turn / out-of-turn / recent-boundary behaviour over a few blocks only
 		}
+		if sc.N > 10 {
+			maxBlocks = 3
+		}
 		scStates := 0
 		for depth := 0; depth <= maxBlocks && len(frontier) > 0; depth++ {
 			var next []bscState
